@@ -398,6 +398,22 @@ theorem nests_sound (choiceSet : List Int) (nests : List (List Int))
     simpa using hin a ha
   simp [nestAudit, h1, nestsOverlap_false nests hdis]
 
+/-- **The verdict on nests depends on their alternatives only, never on their names**: names given
+twice, a given name equal to a default name `nest_<position>`, a name kept from an earlier
+specification — two tuples of nests with the same alternatives get the same verdict. -/
+theorem nest_names_irrelevant (choiceSet : List Int) (ns ms : List NamedNest)
+    (h : ns.map (·.alts) = ms.map (·.alts)) :
+    nestAuditNamed choiceSet ns = nestAuditNamed choiceSet ms := by
+  simp only [nestAuditNamed, assignNames_alts, h]
+
+/-- in particular **nests that share a name and an alternative with any other nest are refused**. -/
+theorem named_overlap_refused (choiceSet : List Int) (ns : List NamedNest) (i j : Nat) (a : Int)
+    (hi : i < ns.length) (hj : j < ns.length) (hij : i ≠ j)
+    (hai : a ∈ (ns.map (·.alts)).getD i []) (haj : a ∈ (ns.map (·.alts)).getD j []) :
+    nestAuditNamed choiceSet ns ≠ .accepted := by
+  simp only [nestAuditNamed, assignNames_alts]
+  exact (nests_refused choiceSet (ns.map (·.alts))).1 i j a (by simpa using hi) (by simpa using hj) hij hai haj
+
 /-! ### round 3 — histories on the same objects (model: `Audit.run`, a state machine over
 `SOp`: evaluations through either entry path, data edited in place, `database.panel()`, another
 member of the catalog selected, columns dropped / added) -/
@@ -587,5 +603,9 @@ example : ∃ w, (run ([.evalExpr] ++ [.declarePanel] ++ [.evalExpr] ++ [.evalEx
       intro k n hk c hc
       rcases k with _ | _ | _ | _ | _ | _ | _ | _ | k <;> simp [exMc] at hk <;> subst hk <;> simp at hc <;> omega) 7
     _ (Path.refl _) rfl rfl (by decide)
+/-- a nest copied with its name kept; a given name equal to the default name of another position -/
+example : nestAuditNamed [1, 2, 3, 4, 5] [⟨some "A", [1, 2]⟩, ⟨some "B", [2, 3]⟩, ⟨some "A", [4, 5]⟩] = .overlap := by decide
+example : nestAuditNamed [1, 2, 3, 4, 5] [⟨some "nest_2", [1, 2]⟩, ⟨none, [3, 4]⟩, ⟨none, [5, 1]⟩] = .overlap := by decide
+example : nestAuditNamed [1, 2, 3, 4] [⟨some "A", [1, 2]⟩, ⟨some "A", [3, 4]⟩] = .accepted := by decide
 
 end C12
